@@ -38,8 +38,11 @@ theorem loopedList_le : ∀ xs : List Value, loopedList xs ≤ nestingList xs + 
     simp only [loopedList, nestingList]; omega
 end
 
-/-- **C16_depth_looped**: for clone, ==, drop (values and datums), print, Display, parse, to_vec,
-    iterators, index, is_list the call depth is at most nesting + 1, whatever the number of elements. -/
+/-- **C16_depth_looped**: for clone, == (values and datums), print, Display, parse, to_vec,
+    iterators, index, is_list the call depth is at most nesting + 1, whatever the number of elements.
+    (`Drop` needs up to twice that: see `C16_loops_from_code` below — `Cons::drop` hands short lists to
+    the recursive drop glue and frees the cells of longer ones one level below itself; still
+    independent of the length.) -/
 theorem C16_depth_looped (v : Value) : looped v ≤ nesting v + 1 := looped_le v
 
 /-- a flat list of n atoms has nesting 1: depth 2 for the looped operations, for every n -/
@@ -65,6 +68,13 @@ theorem C16_derived_linear (n : Nat) :
     omega
 
 example : nesting (Value.list [.number (.pos 1), Value.list [.null]]) = 2 := by decide
+
+/-! **C16_cons_loops_depth** (LexprModel/Proofs/ConsOpsAll.lean, built and audited with this property; it
+    imports this file): the bounds derived from depth-instrumented models of the loops as they are written
+    in cons.rs and datum.rs (LexprModel/ConsOps.lean, ConsOpsDepth.lean, ConsOpsDatum.lean; tied to the code by
+    the `clone` / `dclone` / `consmut` operations): the call depth of `Cons::clone` is EXACTLY `looped v`,
+    `==` stays within `nesting + 1` of either operand, `Drop` within `2 * nesting + 2`; same for the span
+    information of a datum — none depends on the length. -/
 
 end Depth
 end Lexpr
